@@ -102,6 +102,69 @@ pub fn plant(rng: &mut Rng, c: &str, placement: usize) -> String {
     }
 }
 
+/// A string of exactly `total` Shift-JIS bytes whose only double-byte character `db` starts at
+/// encoded byte offset `d` (ASCII elsewhere).
+pub fn long_string(total: usize, d: usize, db: char) -> String {
+    assert!(d + 2 <= total);
+    let mut s = String::with_capacity(total + 2);
+    for i in 0..d {
+        s.push((b'a' + (i % 26) as u8) as char);
+    }
+    s.push(db);
+    for i in 0..(total - d - 2) {
+        s.push((b'A' + (i % 26) as u8) as char);
+    }
+    s
+}
+
+/// `head` ASCII bytes followed by `n` double-byte characters.
+pub fn run_string(head: usize, n: usize, db: char) -> String {
+    let mut s = String::new();
+    for _ in 0..head {
+        s.push('x');
+    }
+    for _ in 0..n {
+        s.push(db);
+    }
+    s
+}
+
+/// Long strings around the size thresholds 2^8, 2^9 (and 2^16 in the thorough tier): total encoded
+/// lengths B-2..=B+2 with a double-byte character at every offset B-5..=B+1 around the boundary
+/// (it straddles bytes B-1|B when it starts at B-1), plus runs of double-byte characters at odd and
+/// even offsets.  Quick keeps a representative handful.
+pub fn long_strings(thorough: bool) -> Vec<String> {
+    let dbs = ['\u{3042}', '\u{30A2}', '\u{03A9}', '\u{FF71}'];
+    let mut v = Vec::new();
+    v.push(run_string(1, 300, '\u{30A2}'));
+    v.push(run_string(0, 300, '\u{3042}'));
+    v.push(long_string(257, 255, '\u{3042}'));
+    v.push(long_string(258, 255, '\u{03A9}'));
+    v.push(long_string(256, 254, '\u{30A2}'));
+    v.push(long_string(258, 256, '\u{3042}'));
+    v.push(long_string(513, 511, '\u{30A2}'));
+    v.push(long_string(255, 100, '\u{3042}'));
+    if thorough {
+        let mut k = 0;
+        for b in [256usize, 512, 65536] {
+            for total in (b - 2)..=(b + 2) {
+                for d in (b - 5)..=(b + 1) {
+                    if d + 2 <= total && !(b == 65536 && total == 65538) {
+                        v.push(long_string(total, d, dbs[k % 3]));
+                        k += 1;
+                    }
+                }
+            }
+            v.push(run_string(1, b / 2 + 2, '\u{30A2}'));
+            v.push(run_string(0, b / 2 + 2, '\u{3042}'));
+        }
+        // half-width katakana (single byte >= 0x80) on the boundary
+        v.push(long_string(300, 254, '\u{3042}').replace('A', "\u{FF71}"));
+    }
+    let _ = dbs[3];
+    v
+}
+
 fn rand_label(rng: &mut Rng) -> Name {
     match rng.below(8) {
         0 | 1 => None,
@@ -216,7 +279,7 @@ pub fn gen(seed: u64, tier: &str) -> Vec<String> {
         push(&mut lines, &meta, &t, &[s]);
     }
     // random files
-    let count = if thorough { 2500 } else { 110 };
+    let count = if thorough { 2500 } else { 85 };
     for _ in 0..count {
         let meta = match rng.below(4) {
             0 => None,
@@ -264,6 +327,11 @@ pub fn gen(seed: u64, tier: &str) -> Vec<String> {
             planted(&mut rng, &mut lines, position, bad);
         }
     }
+    // long strings (size thresholds; `from_bytes` reads strings and labels through the cursor
+    // string reader) in every string-bearing position, rotating
+    for (k, long) in long_strings(thorough).into_iter().enumerate() {
+        planted(&mut rng, &mut lines, k % 4, long);
+    }
     // outside the property's domain (model correspondence only; the oracle skips them):
     // other set / table lengths, the empty set (`set[0]` panics)
     let odd = if thorough { 200 } else { 14 };
@@ -279,6 +347,8 @@ pub fn gen(seed: u64, tier: &str) -> Vec<String> {
             .collect();
         push(&mut lines, &Some("odd".into()), &t, &sets);
     }
+    // interleave refused / panicking / odd-shaped calls with ordinary ones (second use on one thread)
+    rng.shuffle(&mut lines);
     lines
 }
 
